@@ -114,8 +114,59 @@ def sample_contract(L, reverse=True, batch=()):
                     doc="samples are mean + J xi with J J^T the joint covariance defined by the Markov factorisation; zero draws give the marginal means; shapes are prepended")
 
 
+def from_grid_contract(L):
+    """``MarkovSequence.from_grid(prior, grid, reverse)``: the prior as a Markov sequence on the grid -- initial random
+    variable of the prior, then one prior transition per grid interval (dt = increment, unit calibrated scale)."""
+    import importlib
+
+    def mkprior(tcoeffs, base):
+        import probdiffeq.probdiffeq as pd
+
+        ssm = {"dense": pd.state_space_model_dense, "isotropic": pd.state_space_model_isotropic, "blockdiag": pd.state_space_model_blockdiag}[L.tag]()
+        return ssm.prior_wiener_integrated(list(tcoeffs), is_exact=False, output_scale=base)
+
+    def wrap(target):
+        def f(tcoeffs, grid, base):
+            seq = target(mkprior(tcoeffs, base), grid=grid, reverse=False)
+            T = grid.shape[0] - 1
+            n_cond = jax.tree_util.tree_leaves(seq.conditional)[0].shape[0]
+            laws = [law(L, jax.tree_util.tree_map(lambda a, k=k: a[k], seq.conditional)) for k in range(n_cond)]
+            return seq.marginal.mean_flat, seq.marginal.cholesky_flat, laws
+
+        return f
+
+    def ensures(res, tcoeffs, grid, base):
+        m0, c0, laws = res
+        prior = mkprior(tcoeffs, base)
+        cl = [eq("initial_mean_is_the_prior's", m0, prior.init.mean_flat), eq("initial_cholesky_is_the_prior's", c0, prior.init.cholesky_flat),
+              holds("one_transition_per_grid_interval", jnp.asarray(len(laws) == grid.shape[0] - 1))]
+        ones = jnp.ones_like(prior.init.prototype_output_scale_calibrated())
+        for k in range(grid.shape[0] - 1):
+            Ak, bk, Qk = law(L, prior.transition(dt=grid[k + 1] - grid[k], output_scale=ones))
+            A, b, Q = laws[k]
+            cl += [eq(f"transition_{k}_matrix", A, Ak), eq(f"transition_{k}_offset", b, bk), eq(f"transition_{k}_noise", Q, Qk)]
+        return cl
+
+    def instances(tier):
+        out = []
+        for n, d, T in [(2, 1, 3)] + ([(2, 2, 2), (3, 1, 4)] if tier == "thorough" else []):
+            def make(rng, n=n, d=d, T=T):
+                base = jnp.asarray(rng.uniform(0.5, 2.0, size=() if L is IsoL else (d,)))
+                return (tuple(jnp.asarray(rng.normal(size=(d,))) for _ in range(n)), jnp.asarray(np.cumsum(rng.uniform(0.1, 0.4, size=(T,)))), base), {}
+            out.append(Instance(f"n={n},d={d},grid={T}", make, positive=lambda a, k: [a[2]], names=lambda a, k: {id(a[1]): "grid", id(a[2]): "base"}))
+        return out
+
+    def requires(tcoeffs, grid, base):
+        from vcgen.harness import gt
+
+        return [gt("grid_increasing", grid[1:] - grid[:-1])]
+
+    return Contract(name=f"{MOD}:MarkovSequence.from_grid[{L.tag}]", module=MOD, qualname="MarkovSequence.from_grid", wrap=wrap, requires=requires, ensures=ensures, instances=instances,
+                    doc="prior on a grid: the prior's initial random variable and one prior transition per grid interval (increment as dt, unit calibrated scale)")
+
+
 def contracts():
-    out = []
+    out = [from_grid_contract(L) for L in G.LAYOUTS]
     for L in G.LAYOUTS:
         out += [sample_contract(L, True), sample_contract(L, False), sample_contract(L, True, batch=(2,))]
     # two batch axes of different extent: the requested shape is prepended in the requested order
